@@ -3,7 +3,9 @@
     duplicated, permuted; constants, arrays, functions of position) on Elastic/Thermal simulations:
     constrained values (sum convention), Bc_vector_Dirichlet, residual on free dofs, agreement of all
     installed backends; orphan nodes; beam connections through Lagrange multipliers vs elimination;
-    incremental Dirichlet values in Newton iterations (HyperElastic).
+    incremental Dirichlet values in Newton iterations (HyperElastic); the same Dirichlet data grouped into
+    one / several conditions (entered data untouched by the solve, second solve); bounded least squares along
+    a load / unload damage history; prescribed values with every hyperbolic time scheme; a connection entered twice.
 (A) correspondence with the executable Lean model (dof lookup, Dirichlet vector, elimination solve,
     bordered Lagrange system) in exact rationals."""
 
@@ -52,7 +54,7 @@ def random_program(rng, simu, mesh, nconds):
     for c in range(nconds):
         name, nodes = selections[0] if first else rng.choice(selections)
         nodes = np.array(nodes)
-        if rng.random() < 0.4:
+        if not (rng.random() >= 0.4):
             nodes = nodes[np.array(rng.sample(range(nodes.size), nodes.size))]  # permuted
         if first:
             unk = list(unknowns)
@@ -146,14 +148,14 @@ def main():
         dofs_c = np.array(sorted(expected))
         want = np.array([expected[d] for d in dofs_c])
         res.case((it, "constrained"), nontrivial=len(set(simu.Bc_dofs_Dirichlet(pt))) < len(simu.Bc_dofs_Dirichlet(pt)))
-        if np.abs(u[dofs_c] - want).max() > 1e-10 * (1 + np.abs(want).max()):
+        if not (np.abs(u[dofs_c] - want).max() <= 1e-10 * (1 + np.abs(want).max())):
             k = int(np.argmax(np.abs(u[dofs_c] - want)))
             res.fail(f"constrained-value sim={kind}", f"dof {int(dofs_c[k])} holds {u[dofs_c[k]]!r} but the entered values sum to {want[k]!r}", ident)
         res.case((it, "Bc_vector_Dirichlet"))
         vec = simu.Bc_vector_Dirichlet(pt)
         wv = np.zeros(n)
         wv[dofs_c] = want
-        if np.abs(vec - wv).max() > 1e-12 * (1 + np.abs(wv).max()):
+        if not (np.abs(vec - wv).max() <= 1e-12 * (1 + np.abs(wv).max())):
             res.fail(f"Bc_vector_Dirichlet sim={kind}", "Bc_vector_Dirichlet() differs from the sum of the entered values", ident)
         free = np.setdiff1d(np.arange(n), dofs_c)
         fN = simu.Bc_vector_Neumann(pt)
@@ -161,16 +163,16 @@ def main():
         for dof_, val_ in random_program.loads.items():
             wantN[dof_] = val_
         res.case((it, "Bc_vector_Neumann"))
-        if np.abs(np.asarray(fN).ravel() - wantN).max() > 1e-12 * (1 + np.abs(wantN).max()):
+        if not (np.abs(np.asarray(fN).ravel() - wantN).max() <= 1e-12 * (1 + np.abs(wantN).max())):
             res.fail(f"Bc_vector_Neumann sim={kind}", "Bc_vector_Neumann() differs from the point loads entered (value of each unknown on its own degree of freedom)", ident)
         r = K @ u - (np.asarray(F.todense()).ravel() + fN)
         scale = 1 + np.abs(K @ u).max()
         res.case((it, "residual"))
-        if len(free) and np.abs(r[free]).max() > 1e-9 * scale:
+        if len(free) and not (np.abs(r[free]).max() <= 1e-9 * scale):
             res.fail(f"residual sim={kind}", f"K u - F on free dofs = {np.abs(r[free]).max():.3e} (scale {scale:.3e})", ident)
         for backend, ub in sols.items():
             res.case((it, "backend", backend))
-            if np.abs(ub - u).max() > 1e-3 * (1 + np.abs(u).max()):    # iterative backends stop at a relative residual of 1e-5: the error is that times the conditioning
+            if not (np.abs(ub - u).max() <= 1e-3 * (1 + np.abs(u).max())):    # iterative backends stop at a relative residual of 1e-5: the error is that times the conditioning
                 res.fail(f"backend={backend} differs", f"solver {backend} differs from the direct solution by {np.abs(ub - u).max():.3e}", ident)
         # correspondence: exact elimination on the same system
         if n <= 24 and len(lines) < 40:
@@ -217,7 +219,7 @@ def main():
         identq = dict(sim=kind, sequence="conditions, Solve, add_dirichlet, Solve")
         res.case(("late-condition", kind))
         wantq = np.array([0.03 * (k + 1) for k in range(nq)])
-        if np.abs(uA[topq] - wantq).max() > 1e-10 or np.abs(uA - uB).max() > 1e-9 * (1 + np.abs(uB).max()):
+        if not (np.abs(uA[topq] - wantq).max() <= 1e-10) or not (np.abs(uA - uB).max() <= 1e-9 * (1 + np.abs(uB).max())):
             res.fail(f"condition entered after a first solve is not held sim={kind}", f"max |u - prescribed| on the new nodes = {np.abs(uA[topq] - wantq).max():.2e}; difference to the same conditions entered at once = {np.abs(uA - uB).max():.2e}", identq)
 
     # ---------------- B1c: every backend on problems whose loads are tiny (the accuracy asked for is relative) ----------------
@@ -248,7 +250,7 @@ def main():
                 except Exception:  # noqa: BLE001
                     continue
                 res.case(("tiny-load", kind, scale, backend))
-                if np.abs(ub - uref).max() > 1e-3 * np.abs(uref).max():
+                if not (np.abs(ub - uref).max() <= 1e-3 * np.abs(uref).max()):
                     res.fail(f"backend={backend} loses accuracy on a small right-hand side", f"loads of order {scale:g}: solution differs from the direct one by {np.abs(ub - uref).max() / np.abs(uref).max():.2e} (relative)", dict(sim=kind, load_scale=scale, backend=backend))
 
     # ---------------- B2: orphan node ----------------
@@ -265,7 +267,7 @@ def main():
     try:
         u = np.asarray(simu.Solve())
         orphan = meshO.Nn - 1
-        if not np.all(np.isfinite(u)) or abs(u[2 * orphan]) + abs(u[2 * orphan + 1]) > 1e-12:
+        if not np.all(np.isfinite(u)) or not (abs(u[2 * orphan]) + abs(u[2 * orphan + 1]) <= 1e-12):
             res.fail("orphan-node", f"a node attached to no element makes the solution non-finite or moves: u_orphan = {u[2 * orphan:2 * orphan + 2]}", dict(Nn=int(meshO.Nn)))
     except Exception as ex:  # noqa: BLE001
         res.fail("orphan-node", f"solve with an orphan node raised {ex!r}", dict(Nn=int(meshO.Nn)))
@@ -287,7 +289,7 @@ def main():
                 vals = {"damage": np.asarray(so.damage), "displacement": np.asarray(so.displacement)}
             for nm, arr in vals.items():
                 per = arr.reshape(meshO.Nn, -1)
-                if not np.all(np.isfinite(arr)) or np.abs(per[-1]).max() > 1e-12:
+                if not np.all(np.isfinite(arr)) or not (np.abs(per[-1]).max() <= 1e-12):
                     res.fail(f"orphan-node sim={okind}", f"a node attached to no element makes the {nm} non-finite or non-zero there: {int((~np.isfinite(arr)).sum())} non-finite values, value at the orphan node {per[-1].tolist()}",
                              dict(sim=okind, Nn=int(meshO.Nn)))
                     break
@@ -314,11 +316,11 @@ def main():
             dmg = np.asarray(sd_.damage)
             want = np.full(len(midD), 0.25)
             want[0] += 0.125
-            if np.abs(dmg[midD] - want).max() > 1e-9:
+            if not (np.abs(dmg[midD] - want).max() <= 1e-9):
                 res.fail(f"constrained-value sim=phasefield field=damage solver={psolver}", f"after the solve the constrained damage dofs hold {dmg[midD].tolist()} instead of {want.tolist()}", identD)
             elif dref is None:
                 dref = dmg
-            elif np.abs(dmg - dref).max() > 1e-5:
+            elif not (np.abs(dmg - dref).max() <= 1e-5):
                 # first step from an undamaged state: the irreversibility bounds are inactive, the three solvers solve the same system
                 res.fail(f"damage solvers disagree solver={psolver}", f"first load step from an undamaged state: the damage differs from the History solver's by {np.abs(dmg - dref).max():.2e}", identD)
         except Exception as ex:  # noqa: BLE001
@@ -352,11 +354,11 @@ def main():
             ident = dict(elemType=et, timoshenko=timo, angle=th)
             nB = mesh.Nodes_Point(pB)
             res.case(("beam", et, timo, "connection"))
-            if nB.size >= 2 and np.abs(u[nB[0]] - u[nB[1]]).max() > 1e-9 * (1 + np.abs(u).max()):
+            if nB.size >= 2 and not (np.abs(u[nB[0]] - u[nB[1]]).max() <= 1e-9 * (1 + np.abs(u).max())):
                 res.fail("lagrange connection", f"connected nodes differ by {np.abs(u[nB[0]] - u[nB[1]]).max():.3e}", ident)
             nC = mesh.Nodes_Point(pC)[0]
             res.case(("beam", et, timo, "dirichlet"))
-            if np.abs(u[nC, :2] - np.array(tipval[:2])).max() > 1e-9:
+            if not (np.abs(u[nC, :2] - np.array(tipval[:2])).max() <= 1e-9):
                 res.fail("lagrange dirichlet-value", f"prescribed tip displacement {tipval[:2]} but solution holds {u[nC, :2].tolist()}", ident)
             # the multiplier path with every installed backend selected by the user: same solution, constraints and connection hold
             for backend in BACKENDS:
@@ -376,7 +378,7 @@ def main():
                     res.case(("beam", et, timo, "lagrange-backend", backend))
                     nBb, nCb = meshb.Nodes_Point(pB), meshb.Nodes_Point(pC)[0]
                     scale_b = 1 + np.abs(u).max()
-                    if np.abs(ub - u).max() > 1e-6 * scale_b or np.abs(ub[nCb, :2] - np.array(tipval[:2])).max() > 1e-8 or (nBb.size >= 2 and np.abs(ub[nBb[0]] - ub[nBb[1]]).max() > 1e-8 * scale_b):
+                    if not (np.abs(ub - u).max() <= 1e-6 * scale_b) or not (np.abs(ub[nCb, :2] - np.array(tipval[:2])).max() <= 1e-8) or (nBb.size >= 2 and not (np.abs(ub[nBb[0]] - ub[nBb[1]]).max() <= 1e-8 * scale_b)):
                         res.fail(f"lagrange backend={backend}", f"multiplier path with simu.solver = {backend}: differs from the default solver by {np.abs(ub - u).max():.2e}, "
                                  f"tip values off by {np.abs(ub[nCb, :2] - np.array(tipval[:2])).max():.2e}", dict(ident, backend=backend))
                 except Exception as ex:  # noqa: BLE001
@@ -393,7 +395,7 @@ def main():
                 ud = np.asarray(sd.Solve()).reshape(-1, 3)
                 res.case(("beam", et, timo, "lagrange-repeated-dof"))
                 got = ud[meshd.Nodes_Point(pC)[0], 1]
-                if not np.isfinite(got) or abs(got - 0.375) > 1e-9:
+                if not np.isfinite(got) or not (abs(got - 0.375) <= 1e-9):
                     res.fail("lagrange repeated-dof", f"dof entered twice (0.25 + 0.125) on the multiplier path holds {got!r} instead of 0.375", ident)
             # the order in which the conditions (and the unknowns inside a condition) are entered must not matter on the multiplier path
             for order in ("tip first", "tip first, unknowns reversed", "clamp unknowns reversed"):
@@ -420,13 +422,13 @@ def main():
                     res.fail("lagrange entry order raises", f"{type(ex).__name__}: {str(ex)[:150]}", dict(ident, order=order))
                     continue
                 nAo, nCo = mesho.Nodes_Point(pA)[0], mesho.Nodes_Point(pC)[0]
-                if np.abs(uo[nCo, :2] - np.array(tipval[:2])).max() > 1e-9 or np.abs(uo[nAo] - np.array(clampv)).max() > 1e-9:
+                if not (np.abs(uo[nCo, :2] - np.array(tipval[:2])).max() <= 1e-9) or not (np.abs(uo[nAo] - np.array(clampv)).max() <= 1e-9):
                     res.fail("lagrange dirichlet-value entry order", f"conditions entered as '{order}': the tip holds {uo[nCo, :2].tolist()} (prescribed {tipval[:2]}) and the clamp {uo[nAo].tolist()} (prescribed {clampv})",
                              dict(ident, order=order))
             s1, mesh1, u1 = out["one-beam"]
             nC1 = mesh1.Nodes_Point(pC)[0]
             res.case(("beam", et, timo, "lagrange-vs-elimination"))
-            if np.abs(u[nC] - u1[nC1]).max() > 1e-7 * (1 + np.abs(u1).max()):
+            if not (np.abs(u[nC] - u1[nC1]).max() <= 1e-7 * (1 + np.abs(u1).max())):
                 res.fail("lagrange vs elimination", f"tip response with a welded joint (multipliers) {u[nC].tolist()} differs from the continuous beam (elimination) {u1[nC1].tolist()}", ident)
             # correspondence: the bordered system
             pt = s.problemType
@@ -455,7 +457,7 @@ def main():
         simu.add_dirichlet(right, [0.05, 0.01], ["x", "y"])
         u = np.asarray(simu.Solve()).reshape(-1, 2)
         res.case(("newton-dirichlet",))
-        if np.abs(u[right] - np.array([0.05, 0.01])).max() > 1e-9:
+        if not (np.abs(u[right] - np.array([0.05, 0.01])).max() <= 1e-9):
             res.fail("newton incremental dirichlet", f"after the Newton solve the constrained dofs hold {u[right][0].tolist()} instead of [0.05, 0.01]", dict(sim="HyperElastic"))
         # tiny prescribed values on a soft material (forces far below the absolute tolerance of the Newton loop): the constrained dofs still hold them
         for E_small, ud_small in ((1e-3, 1e-4), (4.0, 1e-7)):
@@ -464,7 +466,7 @@ def main():
             simu3.add_dirichlet(right, [ud_small, -ud_small / 2], ["x", "y"])
             u3 = np.asarray(simu3.Solve()).reshape(-1, 2)
             res.case(("newton-dirichlet-small", E_small, ud_small))
-            if np.abs(u3[right] - np.array([ud_small, -ud_small / 2])).max() > 1e-9 * ud_small:
+            if not (np.abs(u3[right] - np.array([ud_small, -ud_small / 2])).max() <= 1e-9 * ud_small):
                 res.fail("newton incremental dirichlet small forces", f"moduli {E_small}, prescribed displacement {ud_small}: after the Newton solve the constrained dofs hold {u3[right][0].tolist()}", dict(sim="HyperElastic", moduli=E_small, prescribed=ud_small))
         # the same dof entered twice with non-zero values: the sum convention must survive Newton iterations
         simu2 = Simulations.HyperElastic(mesh, Models.HyperElastic.SaintVenantKirchhoff(2, 4.0, 4.0))
@@ -473,10 +475,177 @@ def main():
         simu2.add_dirichlet(right, [0.02], ["x"])
         u2 = np.asarray(simu2.Solve()).reshape(-1, 2)
         res.case(("newton-dirichlet-repeated",))
-        if np.abs(u2[right, 0] - 0.05).max() > 1e-9:
+        if not (np.abs(u2[right, 0] - 0.05).max() <= 1e-9):
             res.fail("newton incremental dirichlet repeated-dof", f"dof entered twice (0.03 + 0.02): after the Newton solve it holds {u2[right, 0][0]!r} instead of 0.05", dict(sim="HyperElastic", values=[0.03, 0.02]))
     except Exception as ex:  # noqa: BLE001
         res.fail("newton incremental dirichlet raises", f"the Newton-incremental scenario raised {type(ex).__name__}: {str(ex)[:150]}", dict(sim="HyperElastic"))
+
+    # ---------------- B5: the same Dirichlet data grouped into conditions in different ways; the entered data survive the solve ----------------
+    # (one condition holding everything / one per unknown / one per edge; values as functions or arrays; linear and Newton-incremental solves)
+    meshP = M.mesh_2d("TRI3", a=1.0, b=1.0, h=0.25)
+    cP = meshP.coord
+    leftP, rightP = np.where(np.isclose(cP[:, 0], 0.0))[0], np.where(np.isclose(cP[:, 0], 1.0))[0]
+    edgesP = np.concatenate([leftP, rightP])
+    for kind in ("elastic", "thermal", "hyperelastic"):
+        if kind == "thermal":
+            unkP = ["t"]
+            coefP = [(0.5, 0.25, 0.125)]
+        else:
+            unkP = ["x", "y"]
+            coefP = [(0.0625, 0.03125, 0.0), (0.0, -0.046875, 0.0078125)]
+        nP = len(unkP)
+        funcsP = [lambda x, y, z, c=c: c[0] * x + c[1] * y + c[2] for c in coefP]
+        wantP = np.zeros(meshP.Nn * nP)           # closed form: the entered field at the constrained nodes
+        for k, c in enumerate(coefP):
+            wantP[edgesP * nP + k] = c[0] * cP[edgesP, 0] + c[1] * cP[edgesP, 1] + c[2]
+        dofsP = np.sort(np.concatenate([edgesP * nP + k for k in range(nP)]))
+        groupings = ["one condition", "one condition, arrays", "one per edge"] + (["one per unknown"] if nP > 1 else [])
+        urefP = None
+        for grouping in groupings:
+            identP = dict(sim=kind, grouping=grouping, mesh="TRI3 unit square h=0.25", nodes="x=0 and x=1",
+                          values={u: f"{c[0]}*x + {c[1]}*y + {c[2]}" for u, c in zip(unkP, coefP)})
+            res.case(("grouping", kind, grouping))
+            res.count("grouping:" + kind)
+            try:
+                if kind == "elastic":
+                    sP = Simulations.Elastic(meshP, Models.Elastic.Isotropic(2, E=8.0, v=0.25, planeStress=True, thickness=1.0))
+                elif kind == "thermal":
+                    sP = Simulations.Thermal(meshP, Models.Thermal(2.0, 1.0))
+                else:
+                    sP = Simulations.HyperElastic(meshP, Models.HyperElastic.SaintVenantKirchhoff(2, 4.0, 4.0))
+                if grouping == "one condition":
+                    sP.add_dirichlet(edgesP, list(funcsP), list(unkP))
+                elif grouping == "one condition, arrays":
+                    sP.add_dirichlet(edgesP, [f(cP[edgesP, 0], cP[edgesP, 1], cP[edgesP, 2]) for f in funcsP], list(unkP))
+                elif grouping == "one per edge":
+                    sP.add_dirichlet(leftP, list(funcsP), list(unkP))
+                    sP.add_dirichlet(rightP, list(funcsP), list(unkP))
+                else:
+                    for f, u_ in zip(funcsP, unkP):
+                        sP.add_dirichlet(edgesP, [f], [u_])
+                before = np.asarray(sP.Bc_vector_Dirichlet()).ravel().copy()
+                uP = np.asarray(sP.Solve()).ravel().copy()
+                after = np.asarray(sP.Bc_vector_Dirichlet()).ravel().copy()
+                uP2 = np.asarray(sP.Solve()).ravel().copy()
+            except Exception as ex:  # noqa: BLE001
+                res.fail(f"grouped conditions raise sim={kind}", f"conditions entered as '{grouping}': {type(ex).__name__}: {str(ex)[:150]}", identP)
+                continue
+            if not (np.abs(before - wantP).max() <= 1e-12):
+                res.fail(f"Bc_vector_Dirichlet grouped sim={kind}", f"conditions entered as '{grouping}': Bc_vector_Dirichlet() before the solve differs from the entered field by {np.abs(before - wantP).max():.2e}", identP)
+            if not (np.abs(uP[dofsP] - wantP[dofsP]).max() <= 1e-10):
+                res.fail(f"constrained-value grouped sim={kind}", f"conditions entered as '{grouping}': after the solve the constrained dofs are off their prescribed values by {np.abs(uP[dofsP] - wantP[dofsP]).max():.2e}", identP)
+            if not (np.abs(after - before).max() <= 1e-14):
+                res.fail(f"solve changes the entered Dirichlet values sim={kind}", f"conditions entered as '{grouping}': Bc_vector_Dirichlet() after Solve differs from the one before by {np.abs(after - before).max():.2e}", identP)
+            if not (np.abs(uP2 - uP).max() <= 1e-8 * (1 + np.abs(uP).max())) or not (np.abs(uP2[dofsP] - wantP[dofsP]).max() <= 1e-10):
+                res.fail(f"second solve differs sim={kind}", f"conditions entered as '{grouping}': a second Solve of the same problem differs from the first by {np.abs(uP2 - uP).max():.2e} "
+                         f"(constrained dofs off by {np.abs(uP2[dofsP] - wantP[dofsP]).max():.2e})", identP)
+            if urefP is None:
+                urefP = uP
+            elif not (np.abs(uP - urefP).max() <= 1e-8 * (1 + np.abs(urefP).max())):
+                res.fail(f"grouping of the conditions changes the solution sim={kind}", f"the same Dirichlet data entered as '{grouping}' and as '{groupings[0]}' give solutions that differ by {np.abs(uP - urefP).max():.2e}", identP)
+
+    # ---------------- B6: bounded least-squares backend along a load / unload history ----------------
+    # the stated system of a damage solve with BoundConstrain is  min |Kd d - Fd|  subject to  d_previous <= d <= 1 ; once the plate is
+    # unloaded Fd = 0 (AT2) but the bounds are not: the damage stays where it was
+    from scipy.optimize import lsq_linear
+    meshH = M.mesh_2d("TRI3", a=1.0, b=1.0, h=0.2)
+    leftH, rightH = meshH.Nodes_Conditions(lambda x, y, z: x == 0), meshH.Nodes_Conditions(lambda x, y, z: x == 1.0)
+    historyH = [0.01, 0.02, 0.0, 0.0, 0.005]
+    for psolver, split in (("BoundConstrain", "Bourdin"), ("BoundConstrain", "Amor"), ("HistoryDamage", "Bourdin")):
+        identH = dict(sim="PhaseField", damage_solver=psolver, split=split, regularization="AT2", Gc=1.0, l0=0.1, E=210000.0, v=0.3,
+                      mesh="TRI3 unit square h=0.2", history_ux_right=historyH, staggered_iterations_per_step=1)
+        try:
+            sH = Simulations.PhaseField(meshH, Models.PhaseField(Models.Elastic.Isotropic(2, E=210000.0, v=0.3, planeStress=True, thickness=1.0), split, "AT2", 1.0, 0.1, solver=psolver))
+            dmax = 0.0
+            for kstep, ud in enumerate(historyH):
+                d_prev = np.asarray(sH.damage).copy()
+                ref = None
+                if psolver == "BoundConstrain":
+                    # the damage problem is solved first, with the displacement of the previous step: this is its system
+                    Kd, _, _, Fd = sH.Get_K_C_M_F("damage")
+                    Fd = np.asarray(Fd.todense()).ravel()
+                    lbH = np.minimum(d_prev, 1 - np.finfo(float).eps)
+                    ref = lsq_linear(Kd, Fd, bounds=(lbH, np.ones_like(lbH)), tol=1e-10, method="trf").x
+                sH.Bc_Init()
+                sH.add_dirichlet(leftH, [0.0, 0.0], ["x", "y"])
+                sH.add_dirichlet(rightH, [ud], ["x"])
+                sH.Solve()
+                sH.Save_Iter()
+                d_new = np.asarray(sH.damage).copy()
+                uH = np.asarray(sH.displacement).reshape(meshH.Nn, 2)
+                dmax = max(dmax, float(d_prev.max()))
+                res.case(("damage-history", psolver, split, kstep), nontrivial=bool(d_prev.max() > 0.05 and ud == 0.0))
+                ids = dict(identH, step=kstep)
+                if not np.all(np.isfinite(d_new)) or not ((d_prev - d_new).max() <= 1e-8) or not (d_new.max() <= 1 + 1e-8):
+                    res.fail(f"damage leaves its bounds solver={psolver}", f"step {kstep} (ux = {ud} on the right edge): the damage goes below the one of the previous step by {(d_prev - d_new).max():.3e} "
+                             f"(previous max {d_prev.max():.3f}, new range [{d_new.min():.3e}, {d_new.max():.3e}])", ids)
+                elif ref is not None and not (np.abs(d_new - ref).max() <= 1e-6):
+                    res.fail("bounded least squares solution differs", f"step {kstep}: the damage differs by {np.abs(d_new - ref).max():.3e} from scipy's lsq_linear on the assembled damage system with bounds (previous damage, 1)", ids)
+                if not (np.abs(uH[rightH, 0] - ud).max() <= 1e-10) or not (np.abs(uH[leftH]).max() <= 1e-12):
+                    res.fail(f"constrained-value sim=phasefield history solver={psolver}", f"step {kstep}: ux on the right edge is off {ud} by {np.abs(uH[rightH, 0] - ud).max():.2e}", ids)
+            if not (dmax > 0.05):
+                res.disagree("damage-history-trivial", dict(identH, max_damage=dmax))
+        except Exception as ex:  # noqa: BLE001
+            res.fail(f"damage history raises solver={psolver}", f"{type(ex).__name__}: {str(ex)[:150]}", identH)
+
+    # ---------------- B7: prescribed non-zero displacements with every hyperbolic time scheme ----------------
+    from EasyFEA import AlgoType
+    meshT = M.mesh_2d("QUAD4", a=2.0, b=1.0, h=0.5)
+    leftT, rightT = meshT.Nodes_Conditions(lambda x, y, z: x == 0), meshT.Nodes_Conditions(lambda x, y, z: x == 2.0)
+    for algo in AlgoType:
+        if algo.value in ("elliptic", "parabolic"):
+            continue
+        identT = dict(sim="Elastic", rho=1.0, E=8.0, v=0.25, mesh="QUAD4 2x1 h=0.5", algo=algo.value, dt=0.01, steps=3,
+                      conditions=[dict(nodes="x=0", values=[0.0, 0.0], unknowns=["x", "y"]), dict(nodes="x=2", values=[0.1], unknowns=["x"])])
+        res.case(("hyperbolic-dirichlet", algo.value))
+        try:
+            sT = Simulations.Elastic(meshT, Models.Elastic.Isotropic(2, E=8.0, v=0.25, planeStress=True, thickness=1.0))
+            sT.rho = 1.0
+            sT.add_dirichlet(leftT, [0.0, 0.0], ["x", "y"])
+            sT.add_dirichlet(rightT, [0.1], ["x"])
+            sT.Solver_Set_Hyperbolic_Algorithm(0.01, algo=algo, **(dict(alpha=1 / 6) if algo.value == "hht_newmark" else {}))
+            for _ in range(3):
+                uT = np.asarray(sT.Solve()).reshape(-1, 2).copy()
+                sT.Save_Iter()
+        except Exception as ex:  # noqa: BLE001
+            res.fail(f"hyperbolic solve raises algo={algo.value}", f"{type(ex).__name__}: {str(ex)[:150]}", identT)
+            continue
+        if not np.all(np.isfinite(uT)) or not (np.abs(uT[leftT]).max() <= 1e-12):
+            res.fail(f"hyperbolic homogeneous constraint algo={algo.value}", f"after 3 steps the displacement is non-finite or the clamped edge moved by {np.abs(uT[leftT]).max():.2e}", identT)
+        elif not (np.abs(uT[rightT, 0] - 0.1).max() <= 1e-10):
+            if algo.value == "euler_explicit" and not (np.abs(uT[rightT, 0]).max() <= 0.0):
+                # the recorded finding is 'the prescribed values are never imposed' (the dofs stay at 0.0): anything else is another defect
+                res.fail(f"constrained value partly imposed algo={algo.value}", f"after 3 steps ux on the right edge holds {uT[rightT, 0].tolist()} (prescribed 0.1)", identT)
+            else:
+                res.fail(f"constrained value algo={algo.value}", f"after 3 steps ux on the right edge holds {uT[rightT, 0].tolist()} instead of the prescribed 0.1", identT)
+
+    # ---------------- B8: a beam connection entered twice (a redundant multi-point constraint) ----------------
+    sectF = Mesher().Mesh_2D(Domain(Point(), Point(0.5, 0.5)))
+    pFA, pFB, pFC = Point(0, 0), Point(2.0, 0.5), Point(4.0, 1.0)
+    uF = {}
+    identF = dict(sim="Beam", elemType="SEG2", points=[[0, 0], [2.0, 0.5], [4.0, 1.0]], E=1000.0, v=0.25, section="0.5 x 0.5",
+                  conditions="clamp at A, add_connection_fixed(nodes at B) entered twice, load [1.0, 3.0] on (y, rz) at C")
+    for ntimes in (1, 2):
+        res.case(("duplicated-connection", ntimes))
+        try:
+            beamsF = [Models.Beam.Isotropic(2, Line(pFA, pFB, 1.0), sectF, 1000.0, 0.25), Models.Beam.Isotropic(2, Line(pFB, pFC, 1.0), sectF, 1000.0, 0.25)]
+            meshF = Mesher().Mesh_Beams(beamsF, elemType=ElemType("SEG2"))
+            sF = Simulations.Beam(meshF, Models.Beam.BeamStructure(beamsF))
+            sF.add_dirichlet(meshF.Nodes_Point(pFA), [0, 0, 0], ["x", "y", "rz"])
+            for _ in range(ntimes):
+                sF.add_connection_fixed(meshF.Nodes_Point(pFB))
+            sF.add_neumann(meshF.Nodes_Point(pFC), [1.0, 3.0], ["y", "rz"])
+            uF[ntimes] = np.asarray(sF.Solve()).reshape(-1, 3).copy()
+        except Exception as ex:  # noqa: BLE001
+            res.fail("duplicated connection raises" if ntimes == 2 else "beam frame with one connection raises", f"{type(ex).__name__}: {str(ex)[:150]}", dict(identF, times_entered=ntimes))
+    if 1 in uF and not np.all(np.isfinite(uF[1])):
+        res.fail("beam frame with one connection non-finite", "the welded two-beam frame with the connection entered once has a non-finite solution", dict(identF, times_entered=1))
+    elif 1 in uF and 2 in uF:
+        if not np.all(np.isfinite(uF[2])):
+            res.fail("duplicated connection non-finite solution", f"add_connection_fixed(nodes) entered twice: {int((~np.isfinite(uF[2])).sum())} of {uF[2].size} values of the solution are not finite "
+                     "(entered once the problem is regular)", dict(identF, times_entered=2))
+        elif not (np.abs(uF[2] - uF[1]).max() <= 1e-8 * (1 + np.abs(uF[1]).max())):
+            res.fail("duplicated connection changes the solution", f"add_connection_fixed(nodes) entered twice: the solution differs by {np.abs(uF[2] - uF[1]).max():.2e} from the one with the connection entered once", dict(identF, times_entered=2))
 
     # ---------------- correspondence ----------------
     answers = driver.ask(lines)
@@ -495,12 +664,14 @@ def main():
             part = ans.split("|")[0]
             mv = np.array([float(parse_frac(t)) for t in part.split()])
             rv = np.asarray(real, float).ravel()
-            if mv.shape != rv.shape or np.abs(mv - rv).max() > 1e-8 * (1 + np.abs(mv).max()):
+            if mv.shape != rv.shape or not (np.abs(mv - rv).max() <= 1e-8 * (1 + np.abs(mv).max())):
                 res.disagree(what, dict(ident=ident, maxdev=float(np.abs(mv - rv).max()) if mv.shape == rv.shape else "shape"))
     res.search_note = "random boundary-condition programs on all solver paths found no violated constraint, residual or backend disagreement"
     res.write("seeded boundary-condition programs (2-5 overlapping / duplicated / permuted Dirichlet conditions given as constants, arrays and functions, one load) on "
               "Elastic and Thermal simulations, solved by every installed backend; orphan node; inclined two-beam welded joint (multipliers) vs continuous beam "
-              "(elimination) for SEG2-4, Euler-Bernoulli/Timoshenko; HyperElastic Newton solve; non-trivial = program with a dof constrained more than once; "
+              "(elimination) for SEG2-4, Euler-Bernoulli/Timoshenko; HyperElastic Newton solve; one data set grouped as one condition / per edge / per unknown "
+              "(Elastic, Thermal, HyperElastic); BoundConstrain / HistoryDamage load-unload history against lsq_linear and the bounds; 3 steps of every hyperbolic scheme "
+              "with a non-zero prescribed displacement; welded frame with the connection entered twice; non-trivial = program with a dof constrained more than once; "
               "distinct = distinct (program, check)")
 
 
